@@ -171,10 +171,13 @@ func (w *world) alphabet(profile string) []letter {
 		ls = append(ls, letter{Name: "evidence=dupvote:1", Evidence: "dupvote:1"}, letter{Name: "evidence=dupvote:2", Evidence: "dupvote:2"}, letter{Name: "evidence=lca:0", Evidence: "lca:0"})
 	case "halt":
 		pick("transfer(a0->a1,10,fee2)", "transfer(a1->a2,2000=all)", "transfer(a0->a1,2^255)", "burn(a1,all)", "reclaim(a0<-e0,500sh=all)", "reclaim(e1<-e1,1000sh)", "gov-submit-upgrade(e0)", "gov-vote(e2,#1,yes)", "gov-vote(e1,#1,no)", "escrow(a1->e1,333)")
+		ls = append(ls, letter{Name: "3tx in the mempool, block fits 2", Txs: []txT{txs[0], txs[11], txs[1]}, Fits: 2})
 		ls = append(ls, envLetters(txs[0])...)
 	case "c01":
 		pick("transfer(a0->a1,10,fee2)", "burn(a1,7,fee1)", "escrow(a0->e0,50)", "reclaim(a0<-e0,100sh)", "reclaim(e1<-e1,1000sh)", "allow(a0->a1,+30)", "withdraw(a1<-a0,20)", "amend-commission(e0)", "gov-submit-upgrade(e0)", "gov-vote(e2,#1,yes)", "transfer(a0->a1,balance+1)")
 		ls = append(ls, letter{Name: "2tx: transfer+burn", Txs: []txT{txs[0], txs[10]}})
+		// a mempool batch that does not fit into the block: the proposer must execute exactly what it proposes
+		ls = append(ls, letter{Name: "3tx in the mempool, block fits 2", Txs: []txT{txs[0], txs[11], txs[1]}, Fits: 2}, letter{Name: "2tx in the mempool, block fits 1", Txs: []txT{txs[11], txs[0]}, Fits: 1})
 		ls = append(ls, envLetters(txs[0])...)
 	}
 	if len(w.opts.Prefix) > 0 && w.opts.Prefix[0] == "escrow(e1->e0,400)" {
@@ -200,6 +203,9 @@ func (w *world) alphabet(profile string) []letter {
 	}
 	if w.opts.VRF {
 		ls = append(ls, vrfLetters()...)
+	}
+	if w.opts.KeyManager {
+		ls = append(ls, kmLetters()...)
 	}
 	if w.opts.Runtime {
 		for _, rs := range []roundSpec{
